@@ -160,7 +160,7 @@ func (x *Exec) snapshot(label string) {
 				}
 			}
 			if !owned {
-				if l, err := os.Readlink(fmt.Sprintf("/proc/self/fd/%d", wr.Inst.FD)); err == nil && strings.Contains(l, "inotify") {
+				if l, err := os.Readlink(fmt.Sprintf("/proc/self/fd/%d", wr.Inst.FD)); err == nil && strings.Contains(l, "anon_inode:inotify") {
 					s.FDOpen = true
 				}
 			}
@@ -225,11 +225,31 @@ func countFDs() int {
 			continue // the recycled shadow and the kept duplicates awaiting asynchronous release
 		}
 		l, err := os.Readlink("/proc/self/fd/" + e.Name())
-		if err == nil && strings.Contains(l, "inotify") {
+		if err == nil && strings.Contains(l, "anon_inode:inotify") {
 			n++
 		}
 	}
 	return n
+}
+
+// fdTable lists the low descriptors of the process with what they refer to.
+func fdTable() map[int]string {
+	out := map[int]string{}
+	ents, err := os.ReadDir("/proc/self/fd")
+	if err != nil {
+		return out
+	}
+	for _, e := range ents {
+		fd, _ := strconv.Atoi(e.Name())
+		if fd >= 900 {
+			continue
+		}
+		l, err := os.Readlink("/proc/self/fd/" + e.Name())
+		if err == nil {
+			out[fd] = l
+		}
+	}
+	return out
 }
 
 // execute runs the scenario under the given chooser.
@@ -254,6 +274,7 @@ func execute(sc *Scenario, ch ssim.Chooser, keepTrace bool) *Exec {
 	}()
 	verifSetRecurse(sc.Cfg.Recurse)
 	x.FDsBefore = countFDs()
+	fdsBefore := fdTable()
 	x.sim = sinot.New(sinot.Config{QueueLimit: sc.Cfg.QueueLimit, Coalesce: sc.Cfg.Coalesce, BatchMode: sc.Cfg.BatchMode,
 		FaultAdd: sc.Cfg.FaultAdd, FaultInit: sc.Cfg.FaultInit, FaultRead: sc.Cfg.FaultRead, MaxAddFault: 3, Reorder: sc.Cfg.Reorder})
 	if err := x.sim.NewShadow(); err != nil {
@@ -283,5 +304,12 @@ func execute(sc *Scenario, ch ssim.Chooser, keepTrace bool) *Exec {
 	}
 	x.sim.CloseShadow()
 	x.FDsAfter = countFDs()
+	for fd, l := range fdTable() {
+		if _, was := fdsBefore[fd]; was || strings.Contains(l, "eventpoll") || strings.Contains(l, "eventfd") || strings.HasPrefix(l, "/proc/") && strings.HasSuffix(l, "/fd") {
+			continue // there before; the Go runtime's poller; the listing itself
+		}
+		x.FDLeaks = append(x.FDLeaks, fmt.Sprintf("%d -> %s", fd, l))
+	}
+	sort.Strings(x.FDLeaks)
 	return x
 }
